@@ -45,7 +45,9 @@ fn dir_of(i: usize) -> Vec<&'static str> {
 }
 
 fn loc_of(i: usize) -> Locator {
-    Locator::try_from(format!("file:///{}/m{}.oal", dir_of(i).join("/"), i).as_str()).unwrap()
+    // modules 3k, 3k+1, 3k+2 have the same file name in three nested directories: the same relative
+    // spelling names different modules depending on the importing module
+    Locator::try_from(format!("file:///{}/m{}.oal", dir_of(i).join("/"), i / 3).as_str()).unwrap()
 }
 
 impl Rec {
@@ -53,11 +55,13 @@ impl Rec {
         self.files.get(loc).map(|f| f.0).unwrap_or_else(|| {
             // unknown locator: recover the number from the file name if possible
             let s = loc.url().path();
+            let depth = s.matches('/').count().saturating_sub(2);       // /r/mK.oal -> 0, /r/s/mK.oal -> 1, /r/s/t/mK.oal -> 2
             s.rsplit('/')
                 .next()
                 .and_then(|n| n.strip_prefix('m'))
                 .and_then(|n| n.strip_suffix(".oal"))
-                .and_then(|n| n.parse().ok())
+                .and_then(|n| n.parse::<usize>().ok())
+                .map(|k| 3 * k + depth.min(2))
                 .unwrap_or(9999)
         })
     }
@@ -108,9 +112,9 @@ fn spelling(from: usize, t: usize, k: usize) -> String {
         short.push_str(d);
         short.push('/');
     }
-    short.push_str(&format!("m{}.oal", t));
+    short.push_str(&format!("m{}.oal", t / 3));
     // through the root
-    let long = format!("{}{}/m{}.oal", "../".repeat(df.len()), dt.join("/"), t);
+    let long = format!("{}{}/m{}.oal", "../".repeat(df.len()), dt.join("/"), t / 3);
     match k {
         1 => format!("./{}", short),
         2 => format!("x/../{}", short),
